@@ -102,6 +102,33 @@ def check(ctx):
         # the draw is made on the constructed generator
         draws = [c for c in calls(f, None) if isinstance(c.func, ast.Name) and c.func.id == "func"] + [c for c in calls(f, None) if isinstance(c.func, ast.Attribute) and unparse(c.func.value) == "state"]
         ctx.ob("EFFECT.per-chunk.draw", f, f"{fn}: draws from the constructed generator", bool(draws))
+    # typestate: a generator object that is stored in the graph must never be drawn from.
+    # _rng_from_bitgen wraps its argument WITHOUT copying (default_rng(bitgen) shares the bit generator's
+    # state), so what it is given must be freshly constructed inside the per-block function, or the
+    # graph-resident object advances and a recomputation continues the stream instead of repeating it.
+    for fn, pstate in PER_CHUNK.items():
+        if fn == "_shuffle":
+            # not a block function: Generator.permutation calls it eagerly, at graph construction, on the
+            # caller's own generator (advancing that generator is what drawing a permutation means)
+            eager = [c for c in calls(gen.own_methods["permutation"], "_shuffle")]
+            in_graph = [c for c in calls(mod.tree, "Task") if any(unparse(a) == "_shuffle" for a in c.args)]
+            ctx.ob("EFFECT.per-chunk.fresh-generator", mod.func(fn), "_shuffle is applied eagerly in Generator.permutation, never stored in a graph", bool(eager) and not in_graph)
+            continue
+        f = mod.func(fn)
+        for c in calls(f, "_rng_from_bitgen"):
+            n_fresh = 0
+            arg = c.args[0]
+            defs = all_defs(arg, enclosing_stmt(c), f) if isinstance(arg, ast.Name) else [arg]
+            stale = [d for d in defs if not isinstance(d, ast.Call)]
+            if stale and fn == "_apply_random_func":
+                # the un-rebuilt path is taken only for non-SeedSequence inputs; _wrap_func hands numpy
+                # generators over as seed sequences
+                conv = find("bitgens = [_bitgen._seed_seq for _bitgen in bitgens]", wf)
+                guard = any(isinstance(n_, ast.If) and unparse(n_.test) == "isinstance(bitgen, np.random.SeedSequence)" for n_ in walk_no_nested(f))
+                ok = bool(conv) and guard and has_fact(inline_facts(wf, conv[0][0]), "isinstance(rng, Generator)", True) is not None
+                ctx.ob("EFFECT.per-chunk.fresh-generator", c, f"{fn}: blocks receive SeedSequences (converted in _wrap_func) and build their bit generator from them", ok, "" if ok else "bit generators are stored in the graph and drawn from directly")
+            else:
+                ctx.ob("EFFECT.per-chunk.fresh-generator", c, f"{fn}: _rng_from_bitgen is given a bit generator constructed in the block function", not stale, "" if not stale else f"draws from the graph-resident object `{unparse(arg)}`: its state advances, so recomputing the same seeded array (or switching scheduler afterwards) gives other values")
     ctx.count("per_chunk_constructors", n_sites)
     ctx.floor("per_chunk_constructors", 5)
     sp = mod.func("_spawn_bitgens")
@@ -141,6 +168,8 @@ def check(ctx):
 
 
 VARIANTS = [
+    (RAND, "    state = _rng_from_bitgen(type(state_data)(state_data._seed_seq))", "    state = _rng_from_bitgen(state_data)", "EFFECT.per-chunk.fresh-generator"),
+    (RAND, "        bitgens = [_bitgen._seed_seq for _bitgen in bitgens]\n", "", "EFFECT.per-chunk.fresh-generator"),
     (RAND, "    token = tokenize(bitgen_token, size, chunks, args, kwargs)", "    token = tokenize(size, chunks, args, kwargs)", "TOKFLOW.wrap.token"),
     (RAND, "    state = RandomState(state_data)\n    func = getattr(state, funcname)", "    state = RandomState()\n    func = getattr(state, funcname)", "EFFECT.per-chunk"),
     (RAND, "    return state.choice(a, size=size, replace=replace, p=p, axis=axis, shuffle=shuffle)", "    return state.choice(a, size=size, p=p, axis=axis, shuffle=shuffle)", "DELEG.choice"),
